@@ -145,6 +145,25 @@ def write_replay(prop, sc, res, extra=None):
     return path
 
 
+def fresh_replay_fails(path, prop, k):
+    """Replay ``path`` in a fresh interpreter (with the hash seed recorded
+    in the file): does it fail for ``prop`` with oracle/key ``k``?"""
+    import subprocess
+    try:
+        out = subprocess.run(
+            [sys.executable, os.path.join(VERIF, 'bin', 'check_main.py'),
+             '--replay', path, '--property', prop], capture_output=True,
+            text=True, timeout=600).stdout
+    except Exception:
+        return False
+    for line in out.splitlines():
+        if line.startswith('replay: violation props='):
+            props = line.split('props=')[1].split(' ')[0].split(',')
+            return prop in props and \
+                'oracle=%s key=%s ' % (k[0], k[1]) in line
+    return False
+
+
 def do_replay(path, prop=None):
     from . import campaigns
     with open(path) as f:
@@ -315,9 +334,8 @@ def run_check(args):
                 return 2
             if r['digests'].get(key[1]) != digests[key]:
                 nondet.append(key)
-    if nondet:
-        print('HARNESS-ERROR nondeterministic event log for %r' % (nondet,))
-        return 2
+    # (reported further down: when the code under test keeps process-global
+    # state, the divergence is a symptom of a violation, not of the harness)
     # ---- reach guard: a fault kind that a campaign is built around and
     # that never fired means the harness silently lost coverage
     fired = agg['stats'].get('faults', {})
@@ -346,6 +364,7 @@ def run_check(args):
         exit_code = 2
     # ---- violations
     reported = 0
+    unreproducible = 0
     known_hits = {}
     incidental = {}
     seen_keys = set()
@@ -368,6 +387,7 @@ def run_check(args):
             continue
         seen_keys.add(k)
         small, nruns = sc, 0
+        res0 = res
         if not args.no_shrink:
             try:
                 small, nruns = shrink(
@@ -386,6 +406,22 @@ def run_check(args):
         path = write_replay(prop, small, res,
                             {'campaign': camp['name'], 'seed': seed,
                              'shrink_runs': nruns})
+        # the replay file must reproduce the violation in a fresh process
+        if not fresh_replay_fails(path, prop, k):
+            if small is not sc:
+                os.remove(path)
+                path = write_replay(prop, sc, res0,
+                                    {'campaign': camp['name'], 'seed': seed,
+                                     'shrink_runs': nruns,
+                                     'note': 'not minimised: the minimised '
+                                     'form did not reproduce in a fresh '
+                                     'process'})
+            if small is sc or not fresh_replay_fails(path, prop, k):
+                os.remove(path)
+                seen_keys.discard(k)
+                unreproducible += 1
+                continue
+            res = res0
         print('violation: campaign=%s seed=%d oracle=%s key=%s detail=%s' % (
             camp['name'], seed, v['oracle'], v['key'],
             json.dumps(res['violation']['detail'])[:600]))
@@ -408,6 +444,21 @@ def run_check(args):
                 print('KNOWN-FINDING: property=%s %s (%s; also hit %d times '
                       'in this search)' % (prop, k['what'], k['id'],
                                            known_hits.get(k['id'], 0)))
+    if unreproducible:
+        print('%s %d violation(s) seen during the search did not '
+              'reproduce from their replay file in a fresh process'
+              % ('NOTE' if reported else 'HARNESS-ERROR', unreproducible))
+        if not reported:
+            exit_code = 2
+    if nondet:
+        if reported:
+            print('NOTE event logs differ between worker processes for %r '
+                  '(process-global state in the code under test?)'
+                  % (nondet,))
+        else:
+            print('HARNESS-ERROR nondeterministic event log for %r'
+                  % (nondet,))
+            return 2
     wall = time.time() - t0
     if not args.no_evidence:
         agg['distinct_schedules'] = len(sched_seen)
